@@ -13,7 +13,7 @@ from fractions import Fraction
 import numpy as np
 
 from .. import core
-from ..core import Check, MachineryError, run_tlc
+from ..core import pyf, Check, MachineryError, run_tlc
 
 ULP = 2.0 ** -52
 
@@ -82,7 +82,7 @@ def run(tier, seed):
             A, N, E = float(a), float(n), e
             arr = lambda x: np.array([1.0, float(x)]) * np.array([float(x), 1.0])      # [x, x]
             if not dual:
-                for tag, w in (("jit", lambda f: f), ("py", lambda f: f.py_func)):
+                for tag, w in (("jit", lambda f: f), ("py", lambda f: pyf(f))):
                     call("single.semi_major_axis_derivative/" + tag, w(S.semi_major_axis_derivative), (A, N, float(m1), float(u1[0]), float(m2)), da, det)
                     call("single.eccentricity_derivative/" + tag, w(S.eccentricity_derivative),
                          (A, N, E, float(m1), float(u1[0]), float(u1[1]), float(m2)), de, det, scale=("a", tmag))
@@ -94,7 +94,7 @@ def run(tier, seed):
                 call("single.eccentricity_derivative/array", S.eccentricity_derivative,
                      (arr(A), arr(N), arr(E), float(m1), arr(u1[0]), arr(u1[1]), float(m2)), de, det, scale=("a", tmag))
             else:
-                for tag, w in (("jit", lambda f: f), ("py", lambda f: f.py_func)):
+                for tag, w in (("jit", lambda f: f), ("py", lambda f: pyf(f))):
                     call("dual.semi_major_axis_derivative/" + tag, w(D.semi_major_axis_derivative),
                          (A, N, float(m1), float(u1[0]), float(m2), float(u2[0])), da, det)
                     call("dual.eccentricity_derivative/" + tag, w(D.eccentricity_derivative),
